@@ -211,9 +211,16 @@ var seqCheck = &core.Check{Name: "c06/sequence", Quick: 40000, Thorough: 4000000
 			err = tg.WriteUnary(uint(n))
 		case 7:
 			lim := int(c.U64("lim") % (1 << 31))
+			if c.Intn("lim.wide", 4) == 0 {
+				// the bound is an int: bounds of 2^31 and more are part of the domain
+				lim = int(c.OneOf("lim.w", 1<<31-1, 1<<31, 1<<32-1, 1<<32, 1<<32+1, 1<<33+1, 1<<40, 1<<47+12345, 1<<62, 1<<63-1))
+			}
 			val := 0
 			if lim > 0 {
-				val = int(c.U64("limv") % uint64(lim+1))
+				val = int(c.U64("limv") % (uint64(lim) + 1))
+				if c.Intn("limv.top", 3) == 0 {
+					val = lim
+				}
 			}
 			add = ref.Bits{}.AppendUint(uint64(val), big.NewInt(int64(lim)).BitLen())
 			desc = fmt.Sprintf("WriteLimUint(%d,%d)", val, lim)
@@ -521,6 +528,9 @@ var seqCheck = &core.Check{Name: "c06/sequence", Quick: 40000, Thorough: 4000000
 			pos = j + 1
 		case 9:
 			lim := int(c.U64("rlim") % (1 << 31))
+			if c.Intn("rlim.wide", 4) == 0 {
+				lim = int(c.OneOf("rlim.w", 1<<31-1, 1<<31, 1<<32-1, 1<<32, 1<<32+1, 1<<33+1, 1<<40, 1<<47+12345, 1<<62, 1<<63-1))
+			}
 			n := big.NewInt(int64(lim)).BitLen()
 			desc = fmt.Sprintf("ReadLimUint(%d)", lim)
 			got, err := tg.ReadLimUint(lim)
